@@ -187,6 +187,10 @@ fn binary(a: &SlotMap, ra: &Ref, b: &SlotMap, rb: &Ref, seen_fresh: &mut BTreeSe
     chk!("ord-antisym", c1 == c2.reverse());
     chk!("ord-eq", (c1 == std::cmp::Ordering::Equal) == (ra == rb) && (a == b) == (ra == rb));
     chk!("ord-order-indep", build_rev(ra).cmp(&build_iter(rb, 1)) == c1);
+    // one ordering, whichever way it is asked for: Ord, PartialOrd and the comparison operators agree (the contract of std::cmp::Ord)
+    chk!("ord-partial-ord-agree", a.partial_cmp(b) == Some(c1));
+    chk!("ord-operators-agree", (a < b) == (c1 == std::cmp::Ordering::Less) && (a > b) == (c1 == std::cmp::Ordering::Greater) && (a <= b) == (c1 != std::cmp::Ordering::Greater));
+    chk!("ord-min-max-agree", (std::cmp::min(a, b) == a) == (c1 != std::cmp::Ordering::Greater) && (std::cmp::max(a, b) == b || a == b) == (c1 != std::cmp::Ordering::Greater));
     if ra == rb {
         chk!("hash-eq", h(a) == h(b));
     }
